@@ -720,8 +720,10 @@ def gen_doc(rng: random.Random, fam: str, opts: Optional[Dict[str, Any]] = None)
 
     # ---- file layout
     r = rng.random()
+    plain = doc.build()
+    case["plain_size"] = len(plain)          # size without compression: the scale of the step budget
     if r < 0.7:
-        pdf = doc.build()
+        pdf = plain
         feats["xref_table"] = 1
     elif r < 0.8:
         pdf = doc.build(xref="stream")
